@@ -702,7 +702,7 @@ def case_json(case):
 # --------------------------------------------------------------------------
 # model side
 
-def case_terms(case, idx, mode):
+def case_terms(case, idx, mode, om):
     k = case["split"]
     objs = [to_coq(o["tree"], o["reg"]) for o in case["pop"]]
     defs = ("Definition p%d : list pv := [%s].\n" % (idx, ";\n ".join(objs)) +
@@ -712,8 +712,8 @@ def case_terms(case, idx, mode):
             "Definition tb%d := Eval vm_compute in fs_build [] (skipn %d p%d).\n" % (idx, k, idx))
     terms = []
     for s in case["queries"]:
-        terms.append("show3 %s p%d m%d t%d ma%d tb%d %s %s %s %s" % (
-            mode, idx, idx, idx, idx, idx, common.coq_bool(bool(s["wrap"] or s["comp"])),
+        terms.append("show3 %s %s p%d m%d t%d ma%d tb%d %s %s %s %s" % (
+            mode, om, idx, idx, idx, idx, idx, common.coq_bool(bool(s["wrap"] or s["comp"])),
             flist_coq(s["q"]), flist_coq(s["att"]), flist_coq(s["comp"])))
     return defs, terms
 
@@ -725,11 +725,11 @@ def ix_to_keys(line, keys):
     return "OK " + "".join((keys[int(x)] if x != "?" else "?") + ";" for x in line[3:].split(",") if x)
 
 
-def run_model(cases, mode, tag="c12"):
+def run_model(cases, mode, om, tag="c12"):
     """Evaluate every query of every case in the model; returns per case a list of (mem, fs, c2) lines."""
     groups, cur, size = [], [], 0
     for i, c in enumerate(cases):
-        defs, terms = case_terms(c, i, mode)
+        defs, terms = case_terms(c, i, mode, om)
         # bound the size of the printed result (coqc overflows its stack beyond ~20 000 characters)
         sz = len(terms) * (3 * 3 * len(c["pop"]) + 40)
         if cur and size + sz > 16000:
@@ -893,11 +893,10 @@ FINDINGS = {
     "ts": "C12-dict-timestamp-text",
     "in-string": "C12-fs-in-string-on-type-or-id",
     "nonstring": "C12-fs-nonstring-type-or-id-value",
-    "layout": "C12-fs-id-dir-not-type-uuid",
 }
 
 
-def oracle_case(case, impl, viol, stats):
+def oracle_case(case, impl, viol, stats, om, model_q=None):
     pop = case["pop"]
     vals = [(o["key"], to_ref(o["tree"])) for o in pop]
     vals_text = [(o["key"], to_ref(o["tree"], ts_as_text=not o["reg"])) for o in pop]
@@ -928,7 +927,7 @@ def oracle_case(case, impl, viol, stats):
             kind, keys, _ = parsed[route]
             if kind == "OK" and keys == expect:
                 continue
-            finding = None
+            finding, outside_layout = None, False
             what = "%s route: query %s returns %s, the reference evaluation over the stored objects gives %s" % (
                 route, json.dumps(fl), got[route][:300], expect)
             if expect_text is not None and expect_text != expect and kind == "OK" and keys == expect_text:
@@ -939,16 +938,31 @@ def oracle_case(case, impl, viol, stats):
             elif route in ("fs", "c2"):
                 fl_keys = flagged if route == "fs" else flagged_fs2
                 base = expect
-                mem_fine = parsed["mo"][0] == "OK" and parsed["mo"][1] == expect
-                if "nonstring" in why_ty and mem_fine and (kind == "EXC" or set(keys) <= set(expect)):
+                # the memory route evaluates the same filters without shortcuts (it may itself carry the text deviation)
+                mem_fine = parsed["mo"][0] == "OK" and parsed["mo"][1] in (expect, expect_text)
+                mem_keys = set(parsed["mo"][1]) if mem_fine else set()
+                if om == "OptAnyValue" and "nonstring" in why_ty and mem_fine and got[route] in ("EXC AttributeError", "EXC TypeError"):
                     finding = FINDINGS["nonstring"]
-                elif "in-string" in why_ty and kind == "OK" and mem_fine and set(keys) <= set(expect):
+                elif om == "OptAnyValue" and "in-string" in why_ty and kind == "OK" and mem_fine and set(keys) <= mem_keys:
                     finding = FINDINGS["in-string"]
                 elif kind == "OK" and fl_keys and set(keys) <= set(base) and set(base) - set(keys) <= fl_keys:
-                    finding = FINDINGS["layout"]
+                    outside_layout = True      # only objects whose id is not <own type>--<uuid> are missing
                 elif kind == "OK" and fl_keys and expect_text is not None and set(keys) <= set(expect_text) and \
                         set(expect_text) - set(keys) <= fl_keys:
-                    finding = FINDINGS["layout"]
+                    outside_layout = True
+                    if expect_text != expect:
+                        finding = FINDINGS["ts"]
+            # a deviation is put down to a known defect (or to the layout hypothesis) only if the model of the
+            # code as it was matched -- which contains exactly those defects -- gives the very same answer
+            if (finding or outside_layout) and model_q is not None:
+                mline = {"mo": model_q[qi][0], "md": model_q[qi][0], "fs": model_q[qi][1], "c2": model_q[qi][2]}[route]
+                if not same_line(route, got[route], mline):
+                    finding, outside_layout = None, False
+                    what += " (the model of the matched code variant gives %s)" % mline[:200]
+            if outside_layout:
+                stats["outside_layout_hypothesis"] += 1
+                if finding is None:
+                    continue
             viol.append(Violation(what, {"kind": "query", "pop": [to_json(o["tree"]) for o in pop], "split": k,
                                          "spec": {kk: spec[kk] for kk in ("q", "att", "comp", "wrap", "bare", "none") if kk in spec},
                                          "route": route, "expect": expect}, finding=finding))
@@ -1010,21 +1024,41 @@ def oracle_case(case, impl, viol, stats):
 
 WITNESS = {
     "pop": [{"type": "x-foo", "id": "x-foo--11111111-1111-4111-8111-111111111111",
-             "created": "2020-01-01T00:00:00Z", "modified": "2020-01-01T00:00:00Z", "name": "w"}],
+             "created": "2020-01-01T00:00:00Z", "modified": "2020-01-01T00:00:00Z", "name": "w"},
+            {"type": "identity", "spec_version": "2.1", "id": "identity--22222222-2222-4222-8222-222222222222",
+             "created": "2020-01-01T00:00:00Z", "modified": "2020-01-01T00:00:00Z", "name": "i"}],
     "split": 0,
-    "queries": [{"q": [{"p": "modified", "op": ">", "v": "2020-01-01T00:00:00.5Z"}], "att": [], "comp": [], "wrap": False}],
+    "queries": [{"q": [{"p": "modified", "op": ">", "v": "2020-01-01T00:00:00.5Z"}], "att": [], "comp": [], "wrap": False},
+                {"q": [{"p": "id", "op": "=", "v": 5}], "att": [], "comp": [], "wrap": False},
+                {"q": [{"p": "type", "op": "in", "v": "identity,x-foo"}], "att": [], "comp": [], "wrap": False},
+                {"q": [{"p": "type", "op": "in", "v": ["identity", 5]}], "att": [], "comp": [], "wrap": False}],
     "gets": [],
 }
+W_XFOO = "sx-foo--11111111-1111-4111-8111-111111111111|s2020-01-01T00:00:00Z"
+W_IDENT = "sidentity--22222222-2222-4222-8222-222222222222|t1577836800000000"
 
 
 def select_variant():
+    """Which variants of the model does the code match?  (ts_mode, opt_mode, raw worker answer)"""
     r = common.run_impl("c12_impl", [WITNESS], procs=1)[0]
-    line = r["queries"][0]["md"]
-    if line.startswith("OK s"):
-        return "TextOnDicts", r
-    if line == "OK ":
-        return "InstantOnDicts", r
-    return None, r
+    if "queries" not in r:
+        return None, None, r
+    q = r["queries"]
+    line = q[0]["md"]
+    if parse_line(line)[:2] == ("OK", [W_XFOO]):
+        mode = "TextOnDicts"
+    elif line == "OK ":
+        mode = "InstantOnDicts"
+    else:
+        mode = None
+    a, b, c = q[1]["fs"], parse_line(q[2]["fs"]), parse_line(q[3]["fs"])
+    if a == "EXC AttributeError" and b[:2] == ("OK", []) and c[0] == "EXC":
+        om = "OptAnyValue"
+    elif a == "OK " and b[:2] == ("OK", sorted([W_XFOO, W_IDENT])) and c[:2] == ("OK", [W_IDENT]):
+        om = "OptStringsOnly"
+    else:
+        om = None
+    return mode, om, r
 
 
 # --------------------------------------------------------------------------
@@ -1035,6 +1069,14 @@ def expected_echo(case):
     return hashlib.sha1("\n".join(items).encode()).hexdigest(), set(items)
 
 
+def same_line(route, g, m):
+    """Memory routes: same objects in the same order; filesystem routes: same multiset / same exception class."""
+    if route in ("mo", "md"):
+        return g == m
+    pg, pm = parse_line(g), parse_line(m)
+    return (pg[0] == pm[0]) and (pg[1] == pm[1])
+
+
 def compare(case, impl, model, dis):
     """Correspondence: memory routes exactly (order included), filesystem routes as multisets."""
     n = 0
@@ -1043,12 +1085,7 @@ def compare(case, impl, model, dis):
         for route, mline, ordered in (("mo", mm, True), ("md", mm, True), ("fs", mf, False), ("c2", mc, False)):
             n += 1
             g, m = got[route], mline
-            if ordered:
-                same = g == m
-            else:
-                pg, pm = parse_line(g), parse_line(m)
-                same = (pg[0] == pm[0]) and (pg[0] != "OK" or pg[1] == pm[1])
-            if not same:
+            if not same_line(route, g, m):
                 dis.append({"route": route, "spec": {kk: spec[kk] for kk in ("q", "att", "comp", "wrap", "bare", "none") if kk in spec},
                             "impl": g[:400], "model": m[:400],
                             "pop": [to_json(o["tree"]) for o in case["pop"]], "split": case["split"]})
@@ -1071,13 +1108,13 @@ def check(run):
     with common.Lock():
         res = common.build_props("Props/C12.v")
         run.add_build(res, "make -C coq Props/C12.vo (coqc 8.16.1, full .vo) + Print Assumptions per theorem")
-    # variant
-    mode, wres = select_variant()
-    run.coverage["variant"] = mode
-    if mode is None:
-        run.broken.append(Broken("correspondence", "variant witness matches neither TextOnDicts nor InstantOnDicts",
+    # variants
+    mode, om, wres = select_variant()
+    run.coverage["variant"] = {"ts_mode": mode, "opt_mode": om}
+    if mode is None or om is None:
+        run.broken.append(Broken("correspondence", "variant witnesses match no variant of the model (ts_mode=%s opt_mode=%s)" % (mode, om),
                                  {"witness": WITNESS, "impl": wres}))
-        mode = "TextOnDicts"
+        mode, om = mode or "TextOnDicts", om or "OptAnyValue"
     # cases
     rng = run.rng
     n_pops = 480 if thorough else 110
@@ -1114,8 +1151,9 @@ def check(run):
     good = [(c, r) for c, r in zip(cases, impl) if "queries" in r]
     # model
     dis = []
+    model = None
     try:
-        model = run_model([c for c, _ in good], mode)
+        model = run_model([c for c, _ in good], mode, om)
         total = 0
         for (c, r), m in zip(good, model):
             total += compare(c, r, m, dis)
@@ -1127,20 +1165,25 @@ def check(run):
     except RuntimeError as e:
         run.broken.append(Broken("correspondence", "model evaluation failed", {"error": str(e)[-1500:]}))
     # oracle
-    stats = {"judged": 0, "undefined": 0, "laws": 0, "get_answers": 0}
-    for c, r in good:
-        oracle_case(c, r, run.violations, stats)
+    stats = {"judged": 0, "undefined": 0, "laws": 0, "get_answers": 0, "outside_layout_hypothesis": 0}
+    for gi, (c, r) in enumerate(good):
+        oracle_case(c, r, run.violations, stats, om, model[gi] if model is not None else None)
         for s in c["queries"]:
             fl = s["q"] + s["att"] + s["comp"]
             run.count({"pop": [o["key"] for o in c["pop"]], "spec": [s["q"], s["att"], s["comp"], s["wrap"]]},
                       nontrivial=bool(c["pop"]) and bool(fl))
+    # the witnesses of the defective variants are failing inputs themselves
+    def wit(qi, route, expect, what, fid):
+        run.violations.append(Violation(what, {"kind": "query", "pop": WITNESS["pop"], "split": 0, "spec": WITNESS["queries"][qi],
+                                               "route": route, "expect": expect}, finding=fid))
     if mode == "TextOnDicts":
-        # the witness itself is a failing input of the "timestamp strings compared as instants" clause
-        run.violations.append(Violation(
-            "MemorySource over an unregistered custom dictionary with modified 2020-01-01T00:00:00Z answers "
-            "Filter('modified','>','2020-01-01T00:00:00.5Z') with that object (text comparison, not instants)",
-            {"kind": "query", "pop": WITNESS["pop"], "split": 0, "spec": WITNESS["queries"][0], "route": "md", "expect": []},
-            finding=FINDINGS["ts"]))
+        wit(0, "md", [], "MemorySource over an unregistered custom dictionary with modified 2020-01-01T00:00:00Z answers "
+            "Filter('modified','>','2020-01-01T00:00:00.5Z') with that object (text comparison, not instants)", FINDINGS["ts"])
+    if om == "OptAnyValue":
+        wit(2, "fs", sorted([W_XFOO, W_IDENT]), "FileSystemSource answers Filter('type','in','identity,x-foo') with nothing (the shortcut looks "
+            "for a directory of that name); MemorySource returns the identity and the x-foo object (substring semantics)", FINDINGS["in-string"])
+        wit(1, "fs", [], "FileSystemSource raises AttributeError on Filter('id','=',5) (the shortcut calls get_type_from_id on it); "
+            "MemorySource returns []", FINDINGS["nonstring"])
     run.coverage["oracle"] = stats
     run.coverage["populations"] = len(cases)
     run.coverage["histogram_op_kind_value"] = {"%s|%s|%s" % k2: v for k2, v in sorted(hist.items())}
